@@ -34,7 +34,8 @@ FPS = ["sha256:" + c * 64 for c in "abc"]
 NAMES = ["example.org", "a.b.c", "::1", "[::1]", "2001:db8::5", "host:1965", 'quo"te', "back\\slash", "brack[et]", "é.example",
          "日本.jp", "eq=sign", "hash#tag", "new\nline", "tab\there", "dot.", "'single'", "sp ace", "", "UPPER.Example", "x" * 200,
          "toml.key = 1", "{inline}", "a,b", "\x7f", "\x01ctl", "null\x00byte",
-         "my_host.example", "my-host.example", "myxhost.example", "100%.example", "100x.example", "a%b", "axxb", "_", "%"]
+         "my_host.example", "my-host.example", "myxhost.example", "100%.example", "100x.example", "a%b", "axxb", "_", "%",
+         "upper.example", "EXAMPLE.ORG", "\u00c9.example", "HOST:1965"]
 
 
 def host_st():
